@@ -589,7 +589,9 @@ impl<'r> ProgGen<'r> {
                 }
                 let Some(name) = self.fresh_local(env) else { return self.assign_stmt(env) };
                 let ty = self.rng.pick(&[Ty::Int, Ty::Int, Ty::Int, Ty::Real, Ty::Str, Ty::Table, Ty::Table]).clone();
-                let use_array = self.cfg.array && ty == Ty::Table && env.loop_depth == 0 && env.closure_depth == 0 && self.rng.chance(1, 3);
+                // (an Array leaves one value per element above the locals: at the end of `main`, which has no Return, the
+                // scope exit then closes the wrong slots - so where closures may capture main's locals, main gets no Array)
+                let use_array = self.cfg.array && ty == Ty::Table && env.loop_depth == 0 && env.closure_depth == 0 && !(env.in_main && self.cfg.closures > 0) && self.rng.chance(1, 3);
                 let v = if use_array {
                     let n = self.rng.below(4);
                     let items = (0..n).map(|_| self.expr(env, &Ty::Any, 1)).collect();
@@ -981,8 +983,20 @@ impl<'r> ProgGen<'r> {
     pub fn gen_program(&mut self) -> Module {
         // globals with fixed types, all initialised in main's prologue
         let gtys = [Ty::Int, Ty::Int, Ty::Real, Ty::Str, Ty::Table, Ty::Any, Ty::Any];
-        let ng = self.rng.range(2, 7) as usize;
-        self.globals = (0..ng).map(|i| (format!("g{i}"), gtys[i].clone())).collect();
+        // now and then a program has many globals (the id tables grow) with names from a word pool that contains
+        // pairs of distinct names with equal 32-bit FNV-1a hashes
+        let many = self.rng.chance(1, 6);
+        let ng = if many { self.rng.range(8, 45) as usize } else { self.rng.range(2, 7) as usize };
+        const WORDS: [&str; 14] = ["total", "count", "costarring", "liquid", "declinate", "macallums", "altarage", "zinke", "altarages", "zinkes", "score", "x", "Y2", "a_b"];
+        let mut names: Vec<String> = Vec::new();
+        for i in 0..ng {
+            let mut n = if i >= 7 && self.rng.chance(1, 3) { self.rng.pick(&WORDS).to_string() } else if i >= 7 && self.rng.chance(1, 2) { format!("var_{i}") } else { format!("g{i}") };
+            if names.contains(&n) {
+                n = format!("g{i}");
+            }
+            names.push(n);
+        }
+        self.globals = names.into_iter().enumerate().map(|(i, n)| (n, if i < 7 { gtys[i].clone() } else { gtys[(i * 5 + 1) % 7].clone() })).collect();
         let nf = self.rng.below(self.cfg.max_funcs + 1);
         let use_sub = self.cfg.submodule && nf >= 2 && self.rng.chance(1, 3);
         self.funcs.clear();
